@@ -7,7 +7,9 @@ Implementation under test (real code, objects built without __init__):
   AgentSchedulingComponent.create, AgentExecutingComponent.create (constructors of the concrete
   classes replaced by no-ops: only the factories' own code runs)
   PMGRLaunchingComponent._prepare_pilot (set up as tests/unit_tests/test_launcher does), on a real
-  rp.PilotDescription.
+  rp.PilotDescription;
+  PMGRLaunchingComponent._start_pilot_bulk on bulks of several pilots (real get_resource_config once per bulk,
+  the same rcfg object for every pilot, %-expansion; fake job launcher, _stage_in / tar / tempfile stubbed).
 """
 import glob
 import json
@@ -87,8 +89,10 @@ class C17(Prop):
             'table key and on misspelt/empty names; then for EVERY shipped configuration x schema generated pilot '
             'requests (nodes | cores/GPUs around multiples of the node size, backup 0..3, $RADICAL_SMT unset/1/2/4, '
             'mandatory arguments present/absent, and a malformed share: zero/negative sizes, nodes+cores, backup '
-            'without nodes, SMT 0); non-trivial = a shipped combination that is resolved, or a sizing run that '
-            'reaches the arithmetic (returns figures or trips an assertion)')
+            'without nodes, SMT 0); for EVERY shipped configuration x schema a submission bulk of 2-4 pilots through '
+            'the real _start_pilot_bulk (one resource config object shared by the pilots), every pilot checked against '
+            'the per-pilot clauses; non-trivial = a shipped combination that is resolved, or a sizing run that '
+            'reaches the arithmetic (returns figures or trips an assertion), or a bulk of >= 2 launched pilots')
     trusted = [
         'translator translators/configs.py (JSON / ast -> Gen/Configs.v; fail closed)',
         'correspondence harness harness/c17.py: real Session._init_cfg_from_scratch/get_resource_config on a stub '
@@ -98,7 +102,8 @@ class C17(Prop):
         'Config loader (comment filter, file discovery), dict_merge, as_list',
         'float arithmetic: requested / avail_per_node followed by math.ceil equals exact ceiling division for '
         'magnitudes below 2^52 (model uses Z)',
-        'not modelled: string expansion of the resource config in _start_pilot_bulk, sandboxes, bootstrapper '
+        'driven but not modelled: string expansion of the resource config in _start_pilot_bulk; not modelled: '
+        'tarball and staging of _start_pilot_bulk (stubbed), sandboxes, bootstrapper '
         'arguments, staging directives, the batch system adaptor that consumes jd_dict, the concrete classes\' '
         'constructors; user configuration directories ($RADICAL_CONFIG_USER_DIR is pointed at an empty directory)',
     ]
@@ -135,6 +140,16 @@ class C17(Prop):
         for site, r, s, c in combos:
             for q in self._requests(rng, c, per):
                 yield dict(q, kind='size', site=site, res=r, schema=s)
+        # submission bulks: several pilots prepared from ONE resource config object
+        nb = 1 if tier == 'quick' else 8
+        for site, r, s, c in combos:
+            for b in range(nb):
+                qs = [q for q in self._requests(rng, c, rng.choice([2, 3, 3, 4]), malformed=(b % 4 == 3))]
+                smt = rng.choice([None, None, None, 2, 4]) if b else None
+                proj = rng.random() < 0.95
+                yield {'kind': 'bulk', 'site': site, 'res': r, 'schema': s, 'smt': smt, 'project': proj,
+                       'pilots': [{'nodes': q['nodes'], 'cores': q['cores'], 'gpus': q['gpus'],
+                                   'backup': q['backup']} for q in qs]}
         if tier == 'thorough':
             # small-scope exhaustive on a few platforms with blocked cores / smt / gpus
             pick = [x for x in combos if x[2] is None and (x[0], x[1]) in
@@ -168,7 +183,7 @@ class C17(Prop):
             out.append((which, l))
         return out
 
-    def _requests(self, rng, c, n):
+    def _requests(self, rng, c, n, malformed=True):
         cpn = c.get('cores_per_node') if isinstance(c.get('cores_per_node'), int) else 0
         gpn = c.get('gpus_per_node') if isinstance(c.get('gpus_per_node'), int) else 0
         sa = c.get('system_architecture') if isinstance(c.get('system_architecture'), dict) else {}
@@ -186,7 +201,7 @@ class C17(Prop):
                 if rng.random() < 0.5:
                     g = max(1, gpn)
                     q['gpus'] = max(0, rng.choice([1, k, 2 * k, 30]) * g + rng.choice([-1, 0, 1]))
-            elif r < 0.80:                               # nodes (+backup)
+            elif r < 0.80 or not malformed:              # nodes (+backup)
                 q['nodes'] = rng.choice([1, 1, 2, 3, 8, 64, 1000])
                 q['backup'] = rng.choice([0, 0, 1, 2, 3])
             else:                                        # malformed
@@ -211,6 +226,9 @@ class C17(Prop):
         self.Session = Session
 
         class Stub(object):
+            def get_resource_config(self, resource, schema=None):
+                return Session.get_resource_config(self, resource, schema)      # the real method
+
             def _get_endpoint_fs(self, pilot):
                 return ru.Url('/')
 
@@ -388,6 +406,76 @@ class C17(Prop):
                 pass
         return pilot, (loaded[0] if loaded else None)
 
+    def _bulk(self, case):
+        """real _start_pilot_bulk: one get_resource_config, the same rcfg object for every pilot;
+        fake job launcher, no staging, no tarball"""
+        import threading
+        import radical.pilot.pmgr.launching.base as base
+        ru = self.ru
+        comp = self._component()
+        launched = []
+
+        class FakeLauncher(object):
+            def can_launch(self, rcfg, pilots):
+                return True
+
+            def launch_pilots(self, rcfg, pilots):
+                launched.extend(pilots)
+        comp._launchers = {'fake': FakeLauncher()}
+        comp._stage_in = mock.Mock()
+        comp._pilots = dict()
+        comp._lock = threading.RLock()
+        comp._cfg = ru.Config(cfg={'base': os.getcwd()})
+        comp._prof = mock.Mock()
+        comp._prof.enabled = False
+        pilots = []
+        for i, q in enumerate(case['pilots']):
+            descr, _ = self._descr(dict(case, queue=False, **q))
+            pilots.append({'uid': 'pilot.%04d' % i, 'description': descr})
+        self._bulk_n = getattr(self, '_bulk_n', 0) + 1
+        tmp = os.path.join(os.getcwd(), 'rp_agent_tmp.%d' % self._bulk_n)
+
+        def mkdtemp(*a, **k):
+            os.makedirs(tmp, exist_ok=True)
+            return tmp
+        os.environ.pop('RADICAL_SMT', None)
+        if case['smt'] is not None:
+            os.environ['RADICAL_SMT'] = str(case['smt'])
+        fds = []
+
+        def mkstemp(*a, **k):
+            fds.append(os.open(os.devnull, os.O_RDONLY))
+            return fds[-1], 'rp.agent_cfg.verif'
+        try:
+            with mock.patch.object(ru.Config, 'write', return_value=None), \
+                 mock.patch.object(base.tempfile, 'mkstemp', side_effect=mkstemp), \
+                 mock.patch.object(base.tempfile, 'mkdtemp', side_effect=mkdtemp), \
+                 mock.patch.object(base.ru, 'sh_callout', return_value=('', '', 0)), \
+                 mock.patch.object(base.ru, 'which', return_value='/usr/bin/radical-utils-env.sh'):
+                comp._start_pilot_bulk('%s.%s' % (case['site'], case['res']), case['schema'], pilots)
+        finally:
+            os.environ.pop('RADICAL_SMT', None)
+            import shutil
+            shutil.rmtree(tmp, ignore_errors=True)
+            for fd in fds:
+                try:
+                    os.close(fd)
+                except OSError:
+                    pass
+        if [p['uid'] for p in launched] != [p['uid'] for p in pilots]:
+            raise RuntimeError('launched %s of %s' % ([p['uid'] for p in launched], [p['uid'] for p in pilots]))
+        return launched
+
+    def _figures(self, pilot):
+        jd, ac = pilot['jd_dict'], pilot['cfg']
+        I = self._int
+        return {'node_count': I(jd['node_count']), 'total_cpu': I(jd['total_cpu_count']),
+                'total_gpu': I(jd['total_gpu_count']), 'pph': I(jd['processes_per_host']),
+                'smt': I(int(jd['environment']['RADICAL_SMT'])),
+                'a_nodes': I(ac['nodes']), 'a_backup': I(ac['backup_nodes']), 'a_cores': I(ac['cores']),
+                'a_gpus': I(ac['gpus']), 'a_cpn': I(ac['cores_per_node']), 'a_gpn': I(ac['gpus_per_node']),
+                'p_cpu': I(pilot['resources']['cpu']), 'p_gpu': I(pilot['resources']['gpu'])}
+
     def _descr(self, case):
         d = {'resource': '%s.%s' % (case['site'], case['res']), 'nodes': case['nodes'], 'cores': case['cores'],
              'gpus': case['gpus'], 'backup_nodes': case['backup'], 'runtime': 10}
@@ -459,6 +547,15 @@ class C17(Prop):
             elif 'agent' not in out:
                 out['agent'] = {'exc': 'OtherError'}
             return out
+        if k == 'bulk':
+            try:
+                launched = self._bulk(case)
+            except Exception as e:
+                return {'exc': exc_name(e), 'detail': '%s: %s' % (type(e).__name__, str(e)[:200])}
+            try:
+                return {'pilots': [self._figures(p) for p in launched]}
+            except NonInteger as e:
+                return {'exc': 'OtherError', 'detail': 'non-integer figure %s' % e}
         if k == 'size':
             try:
                 rcfg = self._resolve_cfg(dict(case, batch=False))
@@ -499,8 +596,23 @@ class C17(Prop):
                 % (L.Z(case['nodes']), L.Z(case['cores']), L.Z(case['gpus']), L.Z(case['backup']),
                    strs(present), L.opt(L.Z(case['smt']) if case['smt'] is not None else None)))
 
+    @staticmethod
+    def _sized(o):
+        return ('{| s_node_count := %s; s_total_cpu := %s; s_total_gpu := %s; s_pph := %s; s_smt := %s; '
+                'a_nodes := %s; a_backup := %s; a_cores := %s; a_gpus := %s; a_cpn := %s; a_gpn := %s; '
+                'p_cpu := %s; p_gpu := %s |}' % tuple(L.Z(o[f]) for f in (
+                    'node_count', 'total_cpu', 'total_gpu', 'pph', 'smt', 'a_nodes', 'a_backup', 'a_cores',
+                    'a_gpus', 'a_cpn', 'a_gpn', 'p_cpu', 'p_gpu')))
+
+    def _bulk_reqs(self, case):
+        return L.lst([self._req(dict(case, queue=False, **q)) for q in case['pilots']])
+
     def coq_row(self, case, obs):
         k = case['kind']
+        if k == 'bulk':
+            return '(c17_bulk_row %s %s %s %s %s)' % (
+                S(case['site']), S(case['res']), schema_lit(case['schema']), self._bulk_reqs(case),
+                res(obs, lambda o: L.lst([self._sized(p) for p in o['pilots']])))
         if k == 'list':
             return '(c17_list_row %s)' % L.lst(['(%s, %s, %s)' % (S(a), S(b), strs(c)) for a, b, c in obs['configs']])
         if k == 'factory':
@@ -535,6 +647,9 @@ class C17(Prop):
             return 'all_config_schemas T'
         if k == 'factory':
             return None
+        if k == 'bulk':
+            return 'launch_bulk T %s %s %s %s' % (S(case['site']), S(case['res']), schema_lit(case['schema']),
+                                                  self._bulk_reqs(case))
         if k == 'resolve':
             return 'resolve T %s %s %s %s' % (S(case['site']), S(case['res']), schema_lit(case['schema']),
                                               L.boolean(case['batch']))
@@ -549,6 +664,8 @@ class C17(Prop):
             return 'exc' not in obs
         if k == 'size':
             return 'exc' not in obs or obs['exc'] == 'AssertionError'
+        if k == 'bulk':
+            return 'exc' not in obs and len(obs['pilots']) >= 2
         return k == 'list'
 
     def signature(self, case, obs, clause):
@@ -569,22 +686,78 @@ class C17(Prop):
             if seen.index(plat) >= 3:
                 plat = 'further platforms'
             return '%s:Session.get_resource_config:%s' % (clause, plat)
+        if k == 'bulk':
+            return '%s:PMGRLaunchingComponent._start_pilot_bulk:pilots of one bulk share the resource config' % clause
         if k == 'size':
             # a sizing defect belongs to the code path, not to the platform
             cond = 'nodes given' if case['nodes'] else ('cores+gpus requested' if case['gpus'] else 'cores requested')
             return '%s:PMGRLaunchingComponent._prepare_pilot:%s' % (clause, cond)
         return '%s:%s' % (clause, k)
 
+    # greedy shrinking costs one child process + one coqc per step: at most `shrink_steps` steps per
+    # violation (a case that is not one of the candidates offered last starts a new violation) and
+    # `shrink_total` per run
+    shrink_steps = 8
+    shrink_total = 24
+    _shrink_calls = 0
+    _shrink_root = 0
+    _shrink_last = frozenset()
+
     def shrink(self, case):
+        if json.dumps(case, sort_keys=True) not in C17._shrink_last:
+            C17._shrink_root = 0
+        C17._shrink_calls += 1
+        C17._shrink_root += 1
+        if C17._shrink_calls > self.shrink_total or C17._shrink_root > self.shrink_steps:
+            return []
+        out = self._dedup(case, self._shrink(case))[:40]
+        C17._shrink_last = frozenset(json.dumps(c, sort_keys=True) for c in out)
+        return out
+
+    @staticmethod
+    def _dedup(case, cands):
+        seen = {json.dumps(case, sort_keys=True)}
+        out = []
+        for c in cands:
+            k = json.dumps(c, sort_keys=True)
+            if k not in seen:
+                seen.add(k)
+                out.append(c)
+        return out
+
+    def _shrink(self, case):
+        zero = {'nodes': 0, 'cores': 0, 'gpus': 0, 'backup': 0}
+        if case['kind'] == 'bulk':
+            ps = case['pilots']
+            # two identical pilots, canonical small ones first
+            for q in (dict(zero, nodes=1), dict(zero, cores=1)):
+                yield dict(case, pilots=[dict(q), dict(q)], smt=None)
+            for i in range(len(ps)):
+                yield dict(case, pilots=[dict(ps[i]), dict(ps[i])])
+            if len(ps) > 2:
+                for i in range(len(ps)):
+                    yield dict(case, pilots=ps[:i] + ps[i + 1:])
+            if case['smt'] is not None:
+                yield dict(case, smt=None)
+            # the same field of every pilot at once, then pilot by pilot
+            for f in ('backup', 'gpus', 'cores', 'nodes'):
+                for g in (lambda v: 0, lambda v: min(v, 1), lambda v: v // 2):
+                    yield dict(case, pilots=[dict(p, **{f: g(p[f]) if p[f] > 0 else p[f]}) for p in ps])
+            for i, p in enumerate(ps):
+                for f in ('backup', 'gpus', 'cores', 'nodes'):
+                    v = p[f]
+                    for w in (0, 1, v // 2):
+                        if 0 <= w < v:
+                            yield dict(case, pilots=ps[:i] + [dict(p, **{f: w})] + ps[i + 1:])
+            return
         if case['kind'] != 'size':
             return
+        for q in (dict(zero, nodes=1), dict(zero, cores=1)):
+            yield dict(case, smt=None, queue=False, **q)
         for f in ('backup', 'gpus', 'cores', 'nodes'):
             v = case[f]
-            ws = [0, 1, v // 2, (3 * v) // 4] + ([v - 1] if v <= 16 else [v - 8])
-            seen = set()
-            for w in ws:
-                if 0 <= w < v and w not in seen:
-                    seen.add(w)
+            for w in [0, 1, v // 2, (3 * v) // 4] + ([v - 1] if v <= 16 else []):
+                if 0 <= w < v:
                     yield dict(case, **{f: w})
         if case['smt'] is not None:
             yield dict(case, smt=None)
@@ -603,8 +776,10 @@ class C17(Prop):
             if r['obs'] and isinstance(r['obs'], dict) and 'exc' in r['obs']:
                 key = '%s:%s' % (c['kind'], r['obs']['exc'])
                 excs[key] = excs.get(key, 0) + 1
-            if c['kind'] in ('resolve', 'size'):
+            if c['kind'] in ('resolve', 'size', 'bulk'):
                 combos.add((c['site'], c['res'], c['schema']))
+            if c['kind'] == 'bulk':
+                req['bulk_pilots'] = req.get('bulk_pilots', 0) + len(c['pilots'])
             if c['kind'] == 'size':
                 if c['nodes']: req['nodes'] += 1
                 elif c['gpus']: req['cores+gpus'] += 1
